@@ -80,6 +80,40 @@ def main(argv=None):
     return finish(prop, tier, seed, plan, units, results, t0)
 
 
+class _Limit:
+    """wall-clock limit for native work done in the driver itself (witness re-runs, replays): code under analysis that
+    no longer terminates must not hang the check.  Pure-Python loops are interrupted by SIGALRM."""
+
+    class Expired(KeyboardInterrupt):  # passes through `except Exception` and the replayers' handlers
+        pass
+
+    def __init__(self, seconds):
+        self.seconds = seconds
+
+    def __enter__(self):
+        import signal
+
+        def _raise(sig, frm):
+            raise _Limit.Expired()
+
+        try:
+            self.old = signal.signal(signal.SIGALRM, _raise)
+            signal.setitimer(signal.ITIMER_REAL, self.seconds)
+        except (ValueError, AttributeError):
+            self.old = None
+        return self
+
+    def __exit__(self, *a):
+        import signal
+        try:
+            signal.setitimer(signal.ITIMER_REAL, 0)
+            if self.old is not None:
+                signal.signal(signal.SIGALRM, self.old)
+        except (ValueError, AttributeError):
+            pass
+        return False
+
+
 def runtime_fingerprint():
     """interpreter, solver and dependency versions: part of the cache key of instance units"""
     import platform
@@ -169,7 +203,11 @@ def finish(prop, tier, seed, plan, units, results, t0):
     for k in known:
         if k.get("status") != "open":
             continue
-        ok, msg = rp.validate_known(k)
+        try:
+            with _Limit(20):
+                ok, msg = rp.validate_known(k)
+        except _Limit.Expired:
+            ok, msg = None, "witness re-run did not finish within 20 s"
         k["_witness"] = msg
         if ok is False:
             lines.append(f"NOTE: known finding {k['id']} no longer reproduces natively ({msg}); it is not suppressing anything")
@@ -224,7 +262,13 @@ def finish(prop, tier, seed, plan, units, results, t0):
             seen.add(o.name)
             if len(seen) > MAX_REPLAYS and any("no-failing-input-found" not in v for v in vio_lines):
                 continue
-            info = rp.replay_obligation(prop, o, plan)
+            try:
+                with _Limit(240):
+                    info = rp.replay_obligation(prop, o, plan)
+            except _Limit.Expired:
+                info = {"property": prop, "obligation": o.name, "reproduced": False, "inputs": rp.jsonable(o.inputs),
+                        "clause": o.detail, "solver": {"status": o.status, "backend": o.backend},
+                        "note": "native replay did not finish within 240 s (the code under analysis may not terminate on this input)"}
             if getattr(o, "unconfirmed", False) and not info.get("reproduced"):
                 # refuted only by the second back end (no model) and not confirmed on the real code: undecided
                 if o.kind == "ground":
@@ -249,8 +293,9 @@ def finish(prop, tier, seed, plan, units, results, t0):
         info = None
         if plan.replayers.get(o.unit) is not None or plan.unit_contracts.get(o.unit) is not None:
             try:
-                info = rp.replay_obligation(prop, o, plan)
-            except Exception:  # noqa
+                with _Limit(240):
+                    info = rp.replay_obligation(prop, o, plan)
+            except (Exception, _Limit.Expired):  # noqa
                 info = None
         if info and info.get("reproduced"):
             os.makedirs(rdir, exist_ok=True)
